@@ -213,6 +213,85 @@ fn judge_new_op(seed: &'static str, word: &[Op], k: usize, op: &Op) -> (Vec<Disa
     (ds, (k + 2) as u64, true)
 }
 
+
+// ---------- redo while the display language differs from the one the operation was entered in ----------
+// The history entry must carry what was done, not the localized text that was typed: op entered in language L, undone,
+// language switched to English, redone, language switched back to L -> the observation recorded after the op.
+
+fn lang_ops(lang: &str) -> Vec<Op> {
+    let (sum, iff, sep) = match lang {
+        "es" => ("SUMA", "SI", ","),
+        "de" => ("SUMME", "WENN", ","),
+        "fr" => ("SOMME", "SI", ","),
+        "it" => ("SOMMA", "SE", ","),
+        _ => ("SUM", "IF", ","),
+    };
+    let s = |x: String| x;
+    vec![
+        Op::Input(0, 5, 2, s(format!("={}(A1{}A2)", sum, sep))),
+        Op::Input(0, 5, 3, s(format!("={}(A1>1{}{}(A1:A2){}0)", iff, sep, sum, sep))),
+        Op::ArrayFormula(0, 8, 1, 2, 1, s(format!("={}(A1:A2)*A1:B1", sum))),
+        Op::NewName("lname".into(), None, s(format!("={}(Sheet1!$A$1:$A$2)", sum))),
+        Op::UpdateName("nm".into(), None, "nm".into(), None, s(format!("={}(Sheet1!$A$1:$A$2)", sum))),
+        Op::NewName("lfun".into(), None, s(format!("=LAMBDA(x{}{}(x>0{}10{}20))", sep, iff, sep, sep))),
+        Op::AddCf(0, "B1:B3".into(), s(format!("{}(A1:A2)>1", sum))),
+        Op::PasteCsv(0, 5, 4, s(format!("={}(A1{}A2)", sum, sep))),
+    ]
+}
+
+fn judge_lang_redo(lang: &'static str, op: &Op) -> Vec<Disagreement> {
+    let o = ObsOpts::default();
+    let case = json!({"family": "redo-under-other-language", "lang": lang, "op": op});
+    let mut ds = vec![];
+    let mut um = seeds::load("basic");
+    if um.set_language(lang).is_err() {
+        return ds;
+    }
+    let d0 = um.verif_history_depths().0;
+    match crate::env::guarded(|| op.apply(&mut um)) {
+        Ok(Ok(())) => {}
+        _ => return ds,
+    }
+    if um.verif_history_depths().0 != d0 + 1 {
+        return ds;
+    }
+    let recorded = obs::observe(&um, &o);
+    let step = |um: &mut ironcalc_base::UserModel<'static>, what: &str| -> Result<(), String> {
+        let r = match what {
+            "undo" => um.undo(),
+            "redo" => um.redo(),
+            l => um.set_language(l),
+        };
+        r.map_err(|e| format!("{} failed: {}", what, e))
+    };
+    for what in ["undo", "en", "redo", lang] {
+        match crate::env::guarded(|| step(&mut um, what)) {
+            Ok(Ok(())) => {}
+            Ok(Err(e)) => {
+                ds.push(Disagreement { sig: format!("redo-under-other-language op={} step-error", op.kind()), case, detail: e });
+                return ds;
+            }
+            Err(p) => {
+                ds.push(Disagreement { sig: format!("panic redo-under-other-language at={}", p.split(" @ ").last().unwrap_or("")), case, detail: p });
+                return ds;
+            }
+        }
+    }
+    let now = obs::observe(&um, &o);
+    if now != recorded {
+        let df = obs::diff(&recorded, &now);
+        ds.push(Disagreement {
+            sig: format!("redo-under-other-language op={} fields={}", op.kind(), classes(&df)),
+            case,
+            detail: format!(
+                "{:?} entered in {}, undone, redone while the language was en, shown again in {}: differs from the state recorded when it ran:\n{}",
+                op, lang, lang, obs::diff_text(&df, 6)
+            ),
+        });
+    }
+    ds
+}
+
 fn judge_word(seed: &'static str, word: &[Op], ur_max: usize, new_ops: &[Op]) -> Option<Out> {
     // cut early if the forward word fails
     let o = ObsOpts::default();
@@ -274,6 +353,25 @@ pub fn run(run: &mut Run) {
     let mut outcomes = std::collections::HashSet::new();
     let mut bounds = vec![];
     let mut tainted = 0u64;
+    {
+        let langs: [&'static str; 4] = ["es", "de", "fr", "it"];
+        let mut n = 0u64;
+        for l in langs {
+            let ops = lang_ops(l);
+            let res = crate::env::par_units(ops.len(), |u| judge_lang_redo(l, &ops[u]));
+            for r in res {
+                n += 1;
+                match r {
+                    Ok(ds) => run.add_all(ds),
+                    Err(e) => run.machinery_errors.push(e),
+                }
+            }
+        }
+        run.evaluations += n;
+        run.traces += n;
+        run.transitions += n * 5;
+        bounds.push(json!({"family": "redo-under-other-language", "languages": langs, "operations_per_language": 8, "executions": n}));
+    }
     for (cfg, len, ur_max, new_ops, name) in &plans {
         let j = |seed: &'static str, word: &[Op]| judge_word(seed, word, *ur_max, new_ops);
         let (outs, st, errs) = hist::explore(cfg, *len, &j);
@@ -315,6 +413,13 @@ pub fn run(run: &mut Run) {
 pub fn replay(case: &Value) -> Vec<Disagreement> {
     let seed = hist::seed_name(case["seed"].as_str().unwrap_or("empty"));
     let ops: Vec<Op> = serde_json::from_value(case["ops"].clone()).unwrap_or_default();
+    if case["family"] == "redo-under-other-language" {
+        let lang: &'static str = crate::props::c23::LANGS.iter().find(|l| Some(**l) == case["lang"].as_str()).copied().unwrap_or("es");
+        return match serde_json::from_value::<Op>(case["op"].clone()) {
+            Ok(op) => judge_lang_redo(lang, &op),
+            Err(_) => vec![],
+        };
+    }
     if case.get("ur").is_some() {
         let ur: Vec<bool> = case["ur"]
             .as_array()
